@@ -17,7 +17,9 @@ def _z(ana):
     fi = ana.func(S_ + "admm_update_z")
     keep = {ana.func(S_ + "soft_threshold_prox").qualname}
     b = ana.builder(fi, no_inline=lambda f: f.qualname not in keep)
-    args, u, x = (Sym(p) for p in fi.params)
+    if len(fi.params) < 3:
+        raise AnalysisError("admm_update_z no longer takes (args, u, x)")
+    args, u, x = (Sym(p) for p in fi.params[:3])
     W, N, rho = Attr(args, "window_size"), Attr(args, "num_data_series"), Attr(args, "rho")
     stores = [s for s in b.stores() if s.idx is not None and len(s.loops) == 3]
     if len(stores) != 1:
@@ -337,3 +339,24 @@ def r9(ctx):
     ctx.check(ok, sv, "the loop stops early only when the stop flag is set", role="loop:break", expected="if converged: break", found=found)
     rets = [n for n in cfg.nodes if n.kind == "stmt" and isinstance(n.ast, ast.Return) and cfg.enclosing_loops(n)]
     ctx.check(not rets, sv, "no return inside the iteration loop", role="loop:no-return", found=f"{len(rets)} return(s)")
+
+
+@rule("C02", "R10", "OWN", "the X, Z and U updates return fresh arrays and never write the iterates they are given (Z_old stays the old Z)", floor=3)
+def r10(ctx):
+    from .own import describe, ext_writes, ownership
+    ana = ctx.ana
+    for name in ("admm_update_x", "admm_update_z", "admm_update_u", "check_convergence"):
+        q = S_ + name
+        fi = ana.func(q)
+        oa = ownership(ana, q)
+        bad = [(m, o) for m, o in ext_writes(oa) if not (m.kind.startswith("attribute:"))]
+        for m, objs in bad:
+            ctx.fail(fi, f"{name} may write one of its array arguments in place at {describe(m)}: the previous iterate (Z_old) would change with it",
+                     role=f"inplace:{name}:{m.kind}", expected="updates allocate their result", found=", ".join(map(str, objs))[:120])
+        if not bad:
+            ctx.ok(fi, f"{name}: none of {len(oa.mutations)} mutation sites writes an argument array", role=f"inplace:{name}")
+        if name != "check_convergence":
+            # the result must not alias an argument either
+            aliased = [o for o in oa.returns if o.is_ext]
+            ctx.check(not aliased, fi, f"{name} returns a freshly allocated array (not one of its arguments)", role=f"fresh-result:{name}",
+                      expected="fresh result", found=", ".join(map(str, aliased)))
